@@ -233,21 +233,26 @@ def Dbl.divUsec : Dbl → Dbl
   | .fin n m e => let (a, b) := ratOf m e; dblOfRat n a (b * 1000000)
   | d => d
 
+/-- `if (!(v < 2^64)) reject; (usec_t)v` for a finite non-negative `v` -/
+def usecTrunc (s : Rounded) : Option Nat :=
+  if (ratOf s.m s.e).1 < 2 ^ 64 * (ratOf s.m s.e).2 then
+    some ((ratOf s.m s.e).1 / (ratOf s.m s.e).2)
+  else none
+
+/-- `v + 0.5` (rounded to binary64; overflow = rejected), then `usecTrunc` -/
+def usecAddHalf (p : Rounded) : Option Nat :=
+  (roundRat (2 * (ratOf p.m p.e).1 + (ratOf p.m p.e).2) (2 * (ratOf p.m p.e).2)).bind usecTrunc
+
+/-- `USEC * v` (rounded to binary64; overflow = rejected), then `usecAddHalf` -/
+def timeToUsecFin (m : Nat) (e : Int) : Option Nat :=
+  (roundRat ((ratOf m e).1 * 1000000) (ratOf m e).2).bind usecAddHalf
+
 /-- cfparser.c (with repair F24): `v = USEC * v + 0.5; if (!(v < 2^64)) reject; (usec_t)v`
-    for `v` that passed `parse_time` (not `< 0`).  `none` = rejected. -/
+    for `v` that passed `parse_time` (not `< 0`).  `none` = rejected.
+    (Written with `Option.bind` rather than nested `match`: the kernel otherwise evaluates
+    `_ * 1000000` by unary recursion when it checks proofs about this function.) -/
 def timeToUsec : Dbl → Option Nat
-  | .fin _ m e =>
-    let (a, b) := ratOf m e
-    match roundRat (a * 1000000) b with
-    | none => none
-    | some p =>
-      let (a2, b2) := ratOf p.m p.e
-      -- + 0.5
-      match roundRat (2 * a2 + b2) (2 * b2) with
-      | none => none
-      | some s =>
-        let (a3, b3) := ratOf s.m s.e
-        if a3 < 2 ^ 64 * b3 then some (a3 / b3) else none
+  | .fin _ m e => timeToUsecFin m e
   | .inf _ => none
   | .nan _ => none
 
@@ -304,6 +309,17 @@ def finish (neg : Bool) (n d : Nat) (consumed : Nat) : StrtodRes :=
     let tiny := r.m < 2 ^ 52
     ⟨.fin neg r.m r.e, consumed, n != 0 && tiny && r.inexact⟩
 
+/-- first byte of a list is a hex digit -/
+def headHex : Bytes → Bool
+  | g :: _ => (digitIn 16 g).isSome
+  | [] => false
+
+/-- `0x`/`0X` followed by a hex digit, or by `.` and a hex digit: a hexadecimal float -/
+def hexFloatPrefix : Bytes → Bool
+  | 48 :: x :: h :: t => (x.toNat == 120 || x.toNat == 88) &&
+      ((digitIn 16 h).isSome || (h.toNat == 46 && headHex t))
+  | _ => false
+
 def strtodC (s : Bytes) : StrtodRes :=
   let ws := (s.takeWhile isSpace).length
   let s1 := s.dropWhile isSpace
@@ -321,11 +337,7 @@ def strtodC (s : Bytes) : StrtodRes :=
       | _ => ⟨.nan neg, pre + 3, false⟩
     | _ => ⟨.nan neg, pre + 3, false⟩
   else
-    let isHex := match s2 with
-      | 48 :: x :: h :: t => (x.toNat == 120 || x.toNat == 88) &&
-          ((digitIn 16 h).isSome || (h.toNat == 46 && (match t with | g :: _ => (digitIn 16 g).isSome | [] => false)))
-      | _ => false
-    if isHex then
+    if hexFloatPrefix s2 then
       let (mant, fd, used, _) := readMant 16 (s2.drop 2)
       let (eneg, ev, eused) := readExp 112 (s2.drop (2 + used))
       let consumed := pre + 2 + used + eused
